@@ -53,6 +53,10 @@ func coreLocks(tier string) []RunSpec {
 	for k := 0; k < 2; k++ {
 		out = append(out, RunSpec{Profile: "core:wallet-helpers-keys-without-threshold", Params: map[string]int{"helpers": 1, "pkonly": 1, "k": k}})
 	}
+	// one P2PK and one HTLC input, both SIG_ALL under the same keys, in both orders
+	for k := 0; k < 2; k++ {
+		out = append(out, RunSpec{Profile: "core:cross-kind-sigall-pair", Params: map[string]int{"crosskind": 1, "k": k}})
+	}
 	// two SIG_ALL inputs under different conditions, each validly signed, outputs signed for the first
 	for k := 0; k < 4; k++ {
 		out = append(out, RunSpec{Profile: "core:sigall-mixed-conditions", Params: map[string]int{"mixedcond": 1, "flag": 1, "lt": 0, "wv": 3, "ov": 0, "k": k}})
@@ -672,6 +676,82 @@ func helpersStep(ww *WW, htlc bool, prop string) {
 	}
 }
 
+// crossKindStep: a swap whose two SIG_ALL inputs are of different kinds - one P2PK, one HTLC - under the
+// same keys and threshold, each input with a witness valid for itself, every output signed (and, when
+// the HTLC input comes first, carrying the preimage). The inputs do not share one condition: the
+// statement says such a swap does not succeed, whatever the order.
+func crossKindStep(rc *RunCtx, m *MW, lr *lockRun, htlcFirst bool) {
+	W := m.W
+	mint := "A"
+	ks := W.ActiveKeyset(mint)
+	kr := lr.kr
+	var pre [32]byte
+	copy(pre[:], []byte(randHex(16)))
+	h := sha256.Sum256(pre[:])
+	cP := &LockCfg{Data: kr.PubHex(0), LockKey: 0, NSigs: 1, Pubkeys: []int{1}, SigFlag: "SIG_ALL"}
+	cH := &LockCfg{HTLC: true, Data: hex.EncodeToString(h[:]), Preimage: hex.EncodeToString(pre[:]), NSigs: 1, Pubkeys: []int{1, 0}, SigFlag: "SIG_ALL"} // key order as the mint lists a P2PK lock's keys: co-signers, then the lock key
+	src := m.pickProofs(mint, 2)
+	if src == nil || SumH(src) < 6 {
+		m.StepFund()
+		return
+	}
+	rc.Op(fmt.Sprintf("cross-kind SIG_ALL pair htlcFirst=%v", htlcFirst))
+	var locked []*HProof
+	rc.S.BeginEpisode()
+	rc.S.Run1(m.name("xklock"), W.Ext, func() {
+		fee := m.feeFor(mint, src)
+		total := SumH(src) - fee
+		if total < 3 {
+			return
+		}
+		outs := []*HOutput{W.NewOutput(1, ks.ID, cP.Secret(kr)), W.NewOutput(1, ks.ID, cH.Secret(kr))}
+		chg := W.NewOutputs(Split(total-2), ks.ID)
+		ps, r := m.User.Swap(mint, src, append(outs, chg...))
+		if !r.OK() || len(ps) < 2 {
+			return
+		}
+		m.Spent[mint] = append(m.Spent[mint], src...)
+		locked = ps[:2]
+	})
+	if locked == nil {
+		return
+	}
+	for _, p := range locked {
+		m.User.remove(mint, []*HProof{p}) // not ordinary purse money
+	}
+	pP, pH := locked[0], locked[1]
+	wit := func(v map[string]any) string { b, _ := json.Marshal(v); return string(b) }
+	pP.Witness = wit(map[string]any{"signatures": []string{SignMsg(kr.Priv[0], []byte(pP.Secret), 0)}})
+	pH.Witness = wit(map[string]any{"preimage": cH.Preimage, "signatures": []string{SignMsg(kr.Priv[0], []byte(pH.Secret), 0)}})
+	ins := []*HProof{pP, pH}
+	if htlcFirst {
+		ins = []*HProof{pH, pP}
+	}
+	fee := m.feeFor(mint, ins)
+	if SumH(ins) <= fee {
+		return
+	}
+	outs := W.NewOutputs(Split(SumH(ins)-fee), ks.ID)
+	for _, o := range outs {
+		bb, _ := hex.DecodeString(o.B_)
+		w := map[string]any{"signatures": []string{SignMsg(kr.Priv[0], bb, 0)}}
+		if htlcFirst {
+			w["preimage"] = cH.Preimage
+		}
+		o.Witness = wit(w)
+	}
+	var r *Resp
+	rc.S.BeginEpisode()
+	rc.S.Run1(m.name("xkswap"), W.Ext, func() { _, r = m.User.Swap(mint, ins, outs) })
+	rc.S.Probe(lr.prop + "_cross_kind_sigall_pair")
+	rc.Nontrivial = true
+	if r != nil && r.OK() {
+		m.Spent[mint] = append(m.Spent[mint], ins...)
+		W.Book.Violate(lr.prop+".accepted_invalid", fmt.Sprintf("swap|cross-kind-sigall|htlcFirst=%v|must-reject", htlcFirst),
+			"swap with one P2PK and one HTLC input, both SIG_ALL under the same keys (HTLC first: %v), was accepted although its inputs do not share one condition", htlcFirst)
+	}
+}
+
 func runLocks(rc *RunCtx, htlc bool) {
 	T := rc.T
 	prop := "C12"
@@ -698,6 +778,10 @@ func runLocks(rc *RunCtx, htlc bool) {
 	lr := &lockRun{m: m, kr: NewKeyRing(7), htlc: htlc, prop: prop}
 	rc.StepLoop(2, 10, func(i int) {
 		m.step = i
+		if rc.P("crosskind", 0) == 1 || (rc.Spec.Profile == "random" && T.Chance("lock.crosskind", 1, 12)) {
+			crossKindStep(rc, m, lr, rc.P("k", T.Choose("lock.crosskind.order", 2))%2 == 1 || (htlc && rc.P("crosskind", 0) == 0))
+			return
+		}
 		lr.step(rc, i)
 	})
 	m.Finale()
